@@ -187,7 +187,7 @@ def native(fn):
 
 
 class Obligation:
-    __slots__ = ("oid", "func", "kind", "label", "pc", "goal", "trace", "result", "serves", "meta")
+    __slots__ = ("oid", "func", "kind", "label", "pc", "goal", "trace", "result", "serves", "meta", "defs")
 
     def __init__(self, oid, func, kind, label, pc, goal, trace, serves, meta=None):
         self.oid, self.func, self.kind, self.label = oid, func, kind, label
@@ -438,6 +438,7 @@ class Verifier:
         self.counter[key] = n + 1
         ob = Obligation("%s#%d" % (key, n), "%s:%s" % (c.file, c.qualname), kind, label, list(st.pc), goal,
                         list(st.trace), tuple(serves if serves is not None else c.serves), meta)
+        ob.defs = dict(st.defs)
         self.obligations.append(ob)
 
     # ---------------------------------------------------------------- verifying one function
@@ -489,8 +490,6 @@ class Verifier:
                 outcomes.append((s1, out, env, old))
         results = {"normal": 0, "raise": 0}
         for s1, out, env, old in outcomes:
-            if not ip.feasible(s1):
-                continue
             self.check_exit(s1, out, env, old, cls)
             results["normal" if out[0] != "raise" else "raise"] += 1
         self.stats[(cls.file, cls.qualname)] = dict(paths=len(outcomes), **results)
@@ -633,10 +632,11 @@ class Verifier:
                 s2.assume(self.eval_clause(s2, entry.when, env2))
             for e in entry.post:
                 s2.assume(self.eval_clause(s2, e, env2))
-            if ip.feasible(s2):
-                ip.count_path()
-                s2.trace.append("  raises %s" % ecls.name)
-                outcomes.append((s2, Raise(exc)))
+            # (declared outcomes are kept without a solver call: an outcome excluded by the path condition
+            #  only yields obligations that hold vacuously)
+            ip.count_path()
+            s2.trace.append("  raises %s" % ecls.name)
+            outcomes.append((s2, Raise(exc)))
         # normal outcome
         if not cls.pure:
             self.havoc_ghost(st, cls)
@@ -649,8 +649,7 @@ class Verifier:
             env3 = dict(bound, result=res, g=self.ghost_view(s3), old=old)
             for e in cls.ensures:
                 s3.assume(self.eval_clause(s3, e, env3))
-            if ip.feasible(s3):
-                outcomes.append((s3, res))
+            outcomes.append((s3, res))
         for o in outcomes:
             yield o
 
@@ -841,8 +840,6 @@ class Verifier:
                 bodies = ip.exec_block(node.body, st2)
             for s3, o in bodies:
                 if o[0] in ("normal", "continue"):
-                    if not ip.feasible(s3):
-                        continue
                     i_next = None
                     if is_for:
                         i_next = as_value("int", tm.Add(s3.frames[-1].locals[idx_name].term, tm.Int(1)))
